@@ -38,7 +38,7 @@
 #ifndef inverse
 #define inverse(x) (-(x))
 #endif
-#if defined __has_include
+#if defined __has_include && !defined NO_DECODER
 # if __has_include(<src/utf8_decode.h>)
 #  include <src/utf8_decode.h>
 #  define HAVE_DECODER_H 1
